@@ -60,6 +60,7 @@ static void* verif_memcpy(void* d, const void* s, size_t n) {
 
 /* arbitrary writer state satisfying the representation invariant */
 static void mk_writer(void) {
+    gf_reset();
     VND(gf[1].len, long); VND(gf[1].w_off, long); VND(gf[1].w_val, uchar);
     gf[1].is_open = 1; gf[1].fail_writes = 0; gf[1].n_write_calls = 0; gf[1].n_read_calls = 0; gf[1].bytes_written = 0; gf[1].io_error = 0;
     PrgFile = GF_FILE(1);
